@@ -235,6 +235,29 @@ R.contract(
 )
 
 
+# ... nested: a property that has its OWN example and ALSO examples on its inner properties - both are schema-level examples and both are sent
+_InnerProp = lambda: DictOf(optional={"example": V2}, required={"type": Const("string")})
+_OuterProp = lambda: DictOf(optional={"example": V2, "examples": ListOf(V2, [1], widen=False)}, required={"type": Const("object"), "properties": DictOf(required={"x": _InnerProp()})})
+OWN_OUTER = OWN.format(p="schema['properties']['a']")
+R.contract(
+    EX + "extract_from_schema",
+    variant="nested",
+    prop="C17",
+    args={"operation": Opq("Any"), "schema": DictOf(required={"properties": DictOf(required={"a": _OuterProp()}), "type": Const("object")}),
+          "example_field_name": Const("example"), "examples_field_name": Const("examples")},
+    raises=[],
+    ensures={
+        "the_propertys_own_examples_are_sent": "all(any('a' in o and o['a'] is v for o in result) for v in " + OWN_OUTER + ")",
+        # "every schema-level example on properties": the example of the INNER property is sent too - as the object {x: example} - whether or not the outer property has its own
+        "the_inner_propertys_example_is_sent_as_well": "implies('example' in schema['properties']['a']['properties']['x'], "
+                                                       "any('a' in o and is_instance(o['a'], 'dict') and 'x' in o['a'] and o['a']['x'] is schema['properties']['a']['properties']['x']['example'] for o in result))",
+        "one_object_per_example": "length(result) == length(" + OWN_OUTER + ") + (1 if 'example' in schema['properties']['a']['properties']['x'] else 0)",
+    },
+    bounded_note="one object property with an optional `example`, up to 1 `examples`, and one inner property with an optional `example`",
+    max_paths=20000,
+)
+
+
 # ------------------------------------------------------------------------------------------------- get_strategies_from_examples: every combination becomes one explicit-phase strategy
 def _examples_list(tag):
     def returns(it, env):
